@@ -302,6 +302,90 @@ def pairwise_rows(n: int) -> List[Tuple[int, ...]]:
 # ---------------------------------------------------------------------------
 EXTRA_MEMBERS = [("x-unknown", {"k": [1, "\u00e9"], "n": 1}), ("_meta", {"progressToken": "t-1", "n": 7})]
 SUBSET_LIMIT = 6
+# a small family of unknown members: names x values, put at the top level and on nested models / list items
+UNKNOWN_NAMES = [("plain", "x-extra"), ("underscore-prefix", "_vendorHint"), ("_meta", "_meta"),
+                 ("dunder-prefix", "__dunder"), ("empty", ""), ("space", "with space"), ("non-ascii", "\u00e9-\u540d")]
+UNKNOWN_VALUES = [("scalar", 7), ("null", None), ("object-with-null", {"k": [1, None], "n": None, "s": "v"})]
+UNKNOWN_DEPTH = 2
+UNKNOWN_LIST_ITEMS = 2
+
+
+def name_kind(k: str) -> str:
+    """Class of a member name, in the vocabulary of UNKNOWN_NAMES."""
+    if k == "_meta":
+        return "_meta"
+    if k.startswith("__"):
+        return "dunder-prefix"
+    if k.startswith("_"):
+        return "underscore-prefix"
+    if k == "":
+        return "empty"
+    if any(ord(ch) > 0x7E for ch in k):
+        return "non-ascii"
+    if " " in k:
+        return "space"
+    return "plain"
+
+
+def _model_arms(tp: Any) -> List[type]:
+    tp, _ = _strip_optional(tp)
+    arms = list(typing.get_args(tp)) if typing.get_origin(tp) is Union else [tp]
+    return [a for a in arms if is_model(a)]
+
+
+def match_arm(arms: List[type], value: Dict[str, Any]) -> type:
+    for a in arms:
+        ok = True
+        for f in fields(a):
+            if wire_required(f) and f.wire not in value:
+                ok = False
+            if typing.get_origin(f.annotation) is typing.Literal and f.wire in value \
+                    and value[f.wire] not in typing.get_args(f.annotation):
+                ok = False
+        if ok:
+            return a
+    return arms[0]
+
+
+def model_positions(arms: List[type], value: Any, path: Tuple[Any, ...] = (), depth: int = 0):
+    """(path, names declared there) of every position of the wire object that is typed
+    as a model (not a free-form dict), down to UNKNOWN_DEPTH."""
+    if not isinstance(value, dict) or not arms:
+        return
+    declared = set()
+    for a in arms:
+        for f in fields(a):
+            declared.add(f.wire)
+            declared.add(f.name)
+    yield path, declared
+    if depth >= UNKNOWN_DEPTH:
+        return
+    arm = match_arm(arms, value)
+    for f in fields(arm):
+        if f.wire not in value:
+            continue
+        tp, _ = _strip_optional(f.annotation)
+        v = value[f.wire]
+        if typing.get_origin(tp) in (list, List) and typing.get_args(tp):
+            sub = _model_arms(typing.get_args(tp)[0])
+            if sub and isinstance(v, list):
+                for i, item in enumerate(v[:UNKNOWN_LIST_ITEMS]):
+                    yield from model_positions(sub, item, path + (f.wire, i), depth + 1)
+        else:
+            sub = _model_arms(tp)
+            if sub:
+                yield from model_positions(sub, v, path + (f.wire,), depth + 1)
+
+
+def with_member(wire: Any, path: Tuple[Any, ...], name: str, val: Any) -> Any:
+    import copy
+
+    w = copy.deepcopy(wire)
+    node = w
+    for p_ in path:
+        node = node[p_]
+    node[name] = copy.deepcopy(val)
+    return w
 
 
 def wire_objects(cls: type, depth: int = 2, pairs: bool = False) -> List[Tuple[str, Dict[str, Any]]]:
@@ -362,6 +446,19 @@ def wire_objects(cls: type, depth: int = 2, pairs: bool = False) -> List[Tuple[s
                 w[f.wire] = a
                 w[g.wire] = b
                 out.append((f"pair:{f.wire}#{i}x{g.wire}#{j}/full", w))
+    # 5. the family of unknown members: every name x every value at the top level of the full object and at every
+    #    nested model / list item of it (depth <= 2); every name with a scalar on the minimal object
+    full_w, min_w = obj(opt), obj([])
+    for path, declared_here in model_positions([cls], full_w):
+        at = "/".join(str(p_) for p_ in path) or "<top>"
+        for kind, name in UNKNOWN_NAMES:
+            if name in declared_here:
+                continue
+            for vk, val in UNKNOWN_VALUES:
+                out.append((f"unknown:{kind}={vk}@{at}", with_member(full_w, path, name, val)))
+    for kind, name in UNKNOWN_NAMES:
+        if name not in declared:
+            out.append((f"unknown:{kind}=scalar@<top>/min", with_member(min_w, (), name, UNKNOWN_VALUES[0][1])))
     # de-duplicate on the object (keep first label)
     from .workers import canon
 
